@@ -168,6 +168,17 @@ func scenarios(r *rt.Run) ([]scen, int) {
 	add(scen{Pipe: "loopback", N: 2300, Stop: "StopTask", Stall: "run:kapacitor_loopback", Release: "after"})
 	add(scen{Pipe: "loopback", N: 900, Stop: "StopTask", Stall: "run:kapacitor_loopback", Release: "after"})
 	add(scen{Pipe: "loopback", N: 900, Stop: "DeleteTask", Stall: "run:kapacitor_loopback", Release: "after"})
+	// the INGEST side is still blocked on the task when it is stopped: 3500 points for a pipeline that holds ~3004 in
+	// front of its stall, so the TaskMaster's forking goroutine is parked in forkPoint -> Collect on the task's full
+	// source edge and ~500 acknowledged points wait in the ingest edge; a neighbour task on the same db/rp keeps
+	// receiving.  The stop has to wait for that Collect (never close the edge under it), everything collected is
+	// processed, the neighbour gets everything
+	for _, ov := range []struct{ p, stall string }{{"log", "sink:s"}, {"influx1", "sink:db"}, {"alert", "run:alert"}, {"fork", "sink:db"}} {
+		for _, api := range []string{"StopTask", "DeleteTask", "Close", "TSDisable"} {
+			add(scen{Pipe: ov.p, N: 3500, Stop: api, Stall: ov.stall, Release: "after", Overflow: true})
+		}
+	}
+	add(scen{Pipe: "log", N: 3500, Stop: "StopTask", Stall: "sink:s", Release: "after", Overflow: true, Waiters: 1})
 	// the stop races with goroutines that are already blocked in ExecutingTask.Wait() - services/task_store keeps
 	// one per started task: the stop must return, every waiter must return, all with the same error
 	for pi, p := range pipeOrder {
